@@ -22,15 +22,30 @@ let entries_out buf t =
   List.iteri (fun i (k, v) ->
       if k <> N0 || v <> N0 then Buffer.add_string buf (Printf.sprintf " %d:%Lu:%Lu" i (u64_of_n k) (u64_of_n v))) t.ents
 
+(* checksum = sum over the entries of g(index, key, value) mod 2^31; maintained incrementally: `upd` shares every
+   unchanged pair and the unchanged tail with the previous list, so only physically new pairs are converted *)
+let g i (k, v) =
+  if k = N0 && v = N0 then 0 else begin
+    let m30 x = Int64.to_int (Int64.logand x 0x3FFFFFFFL) in
+    let k = u64_of_n k and v = u64_of_n v in
+    let c = ref 0 in
+    let upd x = c := (!c * 1000003 + x) land 0x7FFFFFFF in
+    upd i; upd (m30 k); upd (m30 (Int64.shift_right_logical k 30));
+    upd (m30 v); upd (m30 (Int64.shift_right_logical v 30)); !c end
+let prev_ents : (n * n) list ref = ref []
+let prev_cs = ref 0
+let full_cs l = let c = ref 0 in List.iteri (fun i e -> c := (!c + g i e) land 0x7FFFFFFF) l; !c
+let checksum l =
+  let rec go i old nw acc =
+    if old == nw then Some acc else
+    match old, nw with
+    | o :: ot, x :: xt -> go (i + 1) ot xt (if o == x then acc else (acc - g i o + g i x) land 0x7FFFFFFF)
+    | _ -> None in
+  let c = match go 0 !prev_ents l !prev_cs with Some c -> c | None -> full_cs l in
+  prev_ents := l; prev_cs := c; c
+
 let state_out buf full t =
-  let cs = ref 0 in
-  let m30 x = Int64.to_int (Int64.logand x 0x3FFFFFFFL) in
-  let upd x = cs := (!cs * 1000003 + x) land 0x7FFFFFFF in
-  List.iteri (fun i (k, v) ->
-      if k <> N0 || v <> N0 then begin
-        let k = u64_of_n k and v = u64_of_n v in
-        upd i; upd (m30 k); upd (m30 (Int64.shift_right_logical k 30));
-        upd (m30 v); upd (m30 (Int64.shift_right_logical v 30)) end) t.ents;
+  let cs = ref (checksum t.ents) in
   Buffer.add_string buf " | H";
   List.iter (fun n -> Buffer.add_char buf ' '; pn buf n) [t.mask0; t.nent; t.pop; t.dels; t.grow; t.shrink; t.tidy];
   Buffer.add_string buf (Printf.sprintf " %d %d " (if t.has0 then 1 else 0) (if t.has1 then 1 else 0));
@@ -40,7 +55,8 @@ let state_out buf full t =
 
 let () =
   let buf = Buffer.create 65536 in
-  let flush () = print_string (Buffer.contents buf); Buffer.clear buf in
+  let interactive = Array.length Sys.argv > 1 && Sys.argv.(1) = "-i" in   (* answer every line at once (generator steering) *)
+  let flush () = print_string (Buffer.contents buf); Buffer.clear buf; if interactive then Stdlib.flush stdout in
   let withT f = match !cur with None -> Buffer.add_string buf "ERR\n" | Some t -> f t in
   let ret_state r t = pn buf r; state_out buf false t; Buffer.add_char buf '\n' in
   (try while true do
@@ -69,8 +85,13 @@ let () =
          List.iter (fun v -> Buffer.add_string buf (Printf.sprintf " %Lu" (u64_of_n v))) (destroy_deallocate t);
          cur := None; Buffer.add_char buf '\n')
      | ["d"] -> withT (fun t -> Buffer.add_char buf 'd'; state_out buf true t; Buffer.add_char buf '\n')
+     | ["q"; k] -> withT (fun t ->      (* generator steering only: where would a put of k land? *)
+         Buffer.add_string buf (match put_probe !bs t (n_of_string k) with
+             | PColl -> "q C" | PRepl _ -> "q R" | PNoFree -> "q X"
+             | PFree f -> if key_at t.ents f = N0 then "q N" else "q D");
+         Buffer.add_char buf '\n')
      | ["h"; k] -> Buffer.add_string buf "h "; pn buf (qt_hash64 (n_of_string k)); Buffer.add_char buf '\n'
      | _ -> Buffer.add_string buf "ERR\n");
-    if Buffer.length buf > 60000 then flush ()
+    if interactive || Buffer.length buf > 60000 then flush ()
   done with End_of_file -> ());
   flush ()
